@@ -4,9 +4,7 @@ import json, os, sys
 here = os.path.dirname(os.path.dirname(os.path.abspath(__file__)))
 sys.path.insert(0, here)
 
-NA = {
-    "C02": "whether the periodic-region search recognises every bonded single crystal as exactly one complete cluster depends on floating-point geometry (span metrics, angle/volume filters, adaptive breadth-first tracking) over all materials, orientations, seeds and noise; no clause of it is both necessary and decidable from the shape of the code, so static analysis does not apply (DESIGN.md section 6)",
-}
+NA = {}      # every property is claimed, C02 / C03 / C04 / C18 for their structural clauses only (see their "claim" text and DESIGN.md section 6)
 
 # pid -> (level category, level text, note, technique, design_ref, has_thorough)
 CHECKS = {}
